@@ -83,7 +83,9 @@ def expr_may_raise(e: Optional[ast.AST]) -> bool:
 
 
 class CFG:
-    def __init__(self, fn: ast.AST):
+    def __init__(self, fn: ast.AST, loop_body: bool = False):
+        """`loop_body=True`: `fn.body` is the body of one loop iteration; continue/break leave it."""
+        self.loop_body = loop_body
         self.fn = fn
         self.nodes: List[Node] = []
         self.succ: Dict[int, List[Tuple[int, str]]] = {}
@@ -108,6 +110,10 @@ class CFG:
 
     def _build(self):
         ctx = _Ctx(exc=self.raise_exit, ret=self.exit, brk=None, cont=None)
+        if self.loop_body:
+            self.ret_exit = self._new("exit", None, "return").id
+            self.break_exit = self._new("exit", None, "break").id
+            ctx = _Ctx(exc=self.raise_exit, ret=self.ret_exit, brk=self.break_exit, cont=self.exit)
         body = self.fn.body if hasattr(self.fn, "body") else []
         outs = self._seq(body, [(self.entry, "next")], ctx, "")
         for o, lab in outs:
